@@ -47,18 +47,28 @@ CONSTANTS
     Tols,         \* collocation distances in thousandths, e.g. {1, 10}
     Kinds,        \* subset of {"float", "text"}
     Assocs,       \* subset of {"V", "C"} : depth data / interval data
+    Owns,         \* subset of BOOLEAN: FALSE = the call passes collocation_distance as its argument (one
+                  \* distance for all sets); TRUE = no argument, every set carries its own
+                  \* "collocation_distance" key - or none when it equals the hole's default 0.01 -
+                  \* (drillhole.py validate_data: argument, else the set's key, else the default)
+    PGs,          \* property_group argument of the call: 0 = none, n > 0 = the group "pg<n>"
+    AllowCopy,    \* whether the history may contain one Drillhole.copy()
     Deviations    \* named deviations switched on by the cfg (the harness adds more through the
                   \* environment: C18_DEV_<name>=1, see EnvDevs)
 
-VARIABLES verts, hasDepth, depthArr, cells, hasFT, ft, data, added, inCall, callTol, dshort, calls, last
+VARIABLES verts, hasDepth, depthArr, cells, hasFT, ft, data, added, inCall, callTol, callOpt, dshort, calls,
+          frozen, last
 \* inCall  = number of sets of the add_data call in progress (0 between calls; the harness observes
 \*           the object only between calls), callTol = its collocation distance
 \* dshort  = how many entries the stored DEPTH array is shorter than the vertex list (see
 \*           MidCallDepthShort; always 0 in the ideal specification and between calls)
-\* calls   = ghost: the `more` flag of every set so far, so that histories which differ only in how
+\* calls   = ghost: the `more` flag and the call arguments of every set so far, so that histories which differ only in how
 \*           the sets were grouped into calls stay distinct paths of the exported graph (the object
 \*           may hide state the model does not have, e.g. cached arrays)
-vw == <<verts, hasDepth, depthArr, cells, hasFT, ft, data, added, inCall, callTol, dshort, calls>>
+\* callOpt = [own, pg] of the call in progress
+\* frozen  = <<>>, or the arrays of the hole at the moment it was copied: from then on the actions
+\*           act on the COPY and the original must stay as it was
+vw == <<verts, hasDepth, depthArr, cells, hasFT, ft, data, added, inCall, callTol, callOpt, dshort, calls, frozen>>
 vars == <<vw, last>>
 
 AllDevs == {"SortSkipsText", "TextMatchTruncated", "MidCallDepthShort"}
@@ -119,21 +129,26 @@ Padded(dt, nv, nc) == [k \in 1..Len(dt) |->
                           [dt[k] EXCEPT !.vals = @ \o Rep(NaN, IF dt[k].assoc = "V" THEN nv ELSE nc)]]
 
 \* a set may be followed by another one of the same call (more) as long as the bounds allow
-CallOK(tol, more) ==
+NoOpt == [own |-> FALSE, pg |-> 0]
+CallOK(tol, more, opt) ==
     /\ Len(data) < MaxAdds
-    /\ inCall > 0 => tol = callTol                         \* one collocation_distance per call
+    /\ opt.own \in Owns /\ opt.pg \in PGs
+    /\ inCall > 0 => (opt = callOpt /\ (~opt.own => tol = callTol))   \* the arguments belong to the call;
+                                                                     \* own keys may differ from set to set
     /\ more => (inCall + 1 < MaxSets /\ Len(data) + 1 < MaxAdds)
 
 \* s0 = arrays after the set; sort_depths only after the last set of the call
-Commit(s0, more, k, assoc, kind, tol, at, toks) ==
+Commit(s0, more, opt, k, assoc, kind, tol, at, toks) ==
     LET s == IF more \/ ~hasDepth' THEN s0 ELSE SortDepths(s0) IN
     /\ verts' = s.verts /\ depthArr' = s.depthArr /\ cells' = s.cells /\ data' = s.data
     /\ inCall' = (IF more THEN inCall + 1 ELSE 0) /\ callTol' = (IF more THEN tol ELSE 0)
-    /\ calls' = Append(calls, more)
+    /\ callOpt' = (IF more THEN opt ELSE NoOpt) /\ UNCHANGED frozen
+    /\ calls' = Append(calls, [more |-> more, own |-> opt.own, pg |-> opt.pg])
     /\ added' = added \cup {[k |-> k, assoc |-> assoc, kind |-> kind, at |-> at[j], tol |-> tol, tok |-> toks[j]]
                             : j \in DOMAIN at}
     /\ last' = [act |-> IF assoc = "V" THEN "AddDepth" ELSE "AddInterval",
-                args |-> [name |-> k, kind |-> kind, tol |-> tol, at |-> at, toks |-> toks, more |-> more],
+                args |-> [name |-> k, kind |-> kind, tol |-> tol, at |-> at, toks |-> toks, more |-> more,
+                          own |-> opt.own, pg |-> opt.pg],
                 out |-> "ok"]
 
 \* ---------------------------------------------------------------- add_data with a "depth" key
@@ -154,7 +169,7 @@ MatchRows(head, b, tol) ==
 \* (validate_depth_data assumes len(self.depths.values) = n_vertices, drillhole.py:637-650): the new
 \* depths are written at the indices of the interval vertices and the vertices created for them
 \* get no depth.  head = the stored array.
-AddDepth(kind, tol, ds, more) ==
+AddDepth(kind, tol, ds, more, opt) ==
     LET k == Len(data) + 1
         m == Len(ds)
         n == Len(verts)
@@ -171,14 +186,14 @@ AddDepth(kind, tol, ds, more) ==
                data |-> Append(Padded(data, Len(unm), 0),
                                [assoc |-> "V", kind |-> kind, vals |-> headVals \o Pick(toks, unm)])]
     IN  /\ "V" \in Assocs
-        /\ CallOK(tol, more)
+        /\ CallOK(tol, more, opt)
         /\ ds \in DepthArgs(tol)
         /\ kind = "text" => unm = [j \in 1..m |-> j]          \* not modelled: text merged into existing depths
         /\ hasDepth' = TRUE /\ dshort' = 0 /\ UNCHANGED <<hasFT, ft>>
-        /\ Commit(s0, more, k, "V", kind, tol, [j \in 1..m |-> <<ds[j]>>], toks)
+        /\ Commit(s0, more, opt, k, "V", kind, tol, [j \in 1..m |-> <<ds[j]>>], toks)
 
 \* ---------------------------------------------------------------- add_data with a "from-to" key
-AddInterval(kind, tol, ivs, more) ==
+AddInterval(kind, tol, ivs, more, opt) ==
     LET k == Len(data) + 1
         m == Len(ivs)
         n == Len(verts)
@@ -198,19 +213,30 @@ AddInterval(kind, tol, ivs, more) ==
                data |-> Append(Padded(data, Len(uni), Len(unm)),
                                [assoc |-> "C", kind |-> kind, vals |-> headVals \o Pick(toks, unm)])]
     IN  /\ "C" \in Assocs
-        /\ CallOK(tol, more)
+        /\ CallOK(tol, more, opt)
         /\ ivs \in IntervalArgs(tol)
         /\ hasFT' = TRUE /\ ft' = ft \o Pick(ivs, unm) /\ UNCHANGED hasDepth      \* :534-553, :595-600
         /\ dshort' = (IF more /\ hasDepth /\ "MidCallDepthShort" \in Devs THEN dshort + Len(uni) ELSE 0)
-        /\ Commit(s0, more, k, "C", kind, tol, ivs, toks)
+        /\ Commit(s0, more, opt, k, "C", kind, tol, ivs, toks)
 
 \* ---------------------------------------------------------------- behaviour
 Init == /\ verts = <<>> /\ hasDepth = FALSE /\ depthArr = <<>> /\ cells = <<>> /\ hasFT = FALSE
-        /\ ft = <<>> /\ data = <<>> /\ added = {} /\ inCall = 0 /\ callTol = 0 /\ dshort = 0 /\ calls = <<>>
+        /\ ft = <<>> /\ data = <<>> /\ added = {} /\ inCall = 0 /\ callTol = 0 /\ callOpt = NoOpt /\ dshort = 0 /\ calls = <<>>
+        /\ frozen = <<>>
         /\ last = [act |-> "Init", args |-> <<>>, out |-> "ok"]
-Next == \E kind \in Kinds, tol \in Tols, more \in BOOLEAN :
-           \/ \E ds \in DepthArgs(tol) : AddDepth(kind, tol, ds, more)
-           \/ \E ivs \in IntervalArgs(tol) : AddInterval(kind, tol, ivs, more)
+\* Drillhole.copy() (object_base.py copy / workspace copy_to_parent): the copy gets the vertices, the
+\* cells and a copy of every child; the history goes on with the copy, the original is frozen
+Snapshot == [verts |-> verts, hasDepth |-> hasDepth, depth |-> depthArr, cells |-> cells, ft |-> ft, data |-> data]
+Copy == /\ AllowCopy /\ frozen = <<>> /\ inCall = 0 /\ Len(data) >= 1 /\ Len(data) < MaxAdds
+        /\ frozen' = Snapshot
+        /\ last' = [act |-> "Copy", args |-> <<>>, out |-> "ok"]
+        /\ UNCHANGED <<verts, hasDepth, depthArr, cells, hasFT, ft, data, added, inCall, callTol, callOpt, dshort, calls>>
+
+Next == \/ \E kind \in Kinds, tol \in Tols, more \in BOOLEAN, own \in Owns, pg \in PGs :
+              LET opt == [own |-> own, pg |-> pg] IN
+              \/ \E ds \in DepthArgs(tol) : AddDepth(kind, tol, ds, more, opt)
+              \/ \E ivs \in IntervalArgs(tol) : AddInterval(kind, tol, ivs, more, opt)
+        \/ Copy
 Spec == Init /\ [][Next]_vars
 
 \* ---------------------------------------------------------------- properties (C18)
@@ -249,9 +275,12 @@ Stray == {p \in (DOMAIN data) \X (1..(Len(verts) + Len(cells))) :
             /\ ~\E a \in added : a.k = p[1] /\ AttachedAt(a, p[2])}
 ValuesAttached == Lost = {} /\ Stray = {}
 
+\* the original of a copy stays as it was
+OriginalKept == [][frozen # <<>> => frozen' = frozen]_vars
+
 \* ---------------------------------------------------------------- export
 Obs == [verts |-> verts, hasDepth |-> hasDepth, depth |-> depthArr, cells |-> cells, ft |-> ft,
-        data |-> data, inCall |-> inCall,
+        data |-> data, inCall |-> inCall, frozen |-> frozen,
         aligned |-> ArraysAligned, vertexAtDepth |-> VertexAtDepth, cellsJoin |-> CellsJoin,
         lost |-> {[k |-> a.k, tok |-> a.tok, assoc |-> a.assoc, kind |-> a.kind] : a \in Lost},
         stray |-> {[k |-> p[1], kind |-> data[p[1]].kind, assoc |-> data[p[1]].assoc] : p \in Stray}]
